@@ -29,6 +29,18 @@ PROPS = {
                 rule="As C12 with up to 3 clients; checks at quiescent points (all clients joined, no runnable goroutine, collection worker idle and no trigger pending).",
                 probes=["c13_checked", "c13_nonzero", "cached", "restart"],
                 assumptions=["'collection has quiesced' = worker idle, no trigger queued, no goroutine runnable; bounded liveness budget 10 simulated seconds"]),
+    "C15": dict(tiers(qr=300, qb=50, tr=6000, tb=900, timeout=300),
+                level="exploration",
+                level_text="Same node world, single client, capacity far above reach: around every pin / unpin / pinned upload the full pin index is dumped and the pin's measured effect (its delta on every chunk's count) is compared: first pin marks every stored chunk and lists the reference, a repeated pin changes nothing, an unpin subtracts exactly its pin's delta, a repeated unpin changes nothing, listing follows the last operation; also across clean restarts.",
+                rule="Histories of upload (with / without Aurora-Pin), cache (real download), POST / DELETE /pins/{ref} on files with shared and repeated chunks, restarts; oracle evaluated at quiescence before and after each pin-changing operation.",
+                probes=["c15_first_pin", "c15_repeat_pin", "c15_unpin", "c15_repeat_unpin", "restart"],
+                assumptions=["the effect of a pin is measured, not predicted: only idempotence and exact inversion are demanded", "an unpin that fails while the file is pinned makes the file uncertain (the statement is silent)"]),
+    "C17": dict(tiers(qr=300, qb=50, tr=6000, tb=900, timeout=300),
+                level="exploration",
+                level_text="Same node world (uploads, real downloads through discovery + retrieval, local reads under a file context, deletes, evictions, restarts with InitChunkInfo from the state store): at every quiescent barrier every availability record the node keeps for itself is compared bit by bit with the local store (bit i set => i-th data chunk in protocol order stored; all set => all stored), and after a delete no in-memory or persisted availability / discovery / source record of the file may remain.",
+                rule="As C12; the protocol order of data chunks is taken from GetChunkHashes on a node holding the whole file.",
+                probes=["c17_record_checked", "c17_bit_checked", "c17_full", "c17_deleted_checked", "cached", "restart"],
+                assumptions=["data-chunk order = first occurrence in traversal.GetChunkHashes (trusted as the protocol's definition)"]),
     "C16": dict(tiers(qr=300, qb=50, tr=6000, tb=900, timeout=300),
                 level="exploration",
                 level_text="Same node world; after every barrier (deletes through DELETE /aurora/{ref}) and after an exclusive collection run (eviction) every chunk of every other locally known file must still be stored and no unpinned chunk used only by deleted/evicted files may remain.",
